@@ -256,6 +256,22 @@ CHECKS = {
                   "(1e-6 relative at pixel centres); from_path (OpenCV / loadtxt) not exercised. No axioms.",
         technique="Rocq proofs (induction on sample lists, Bresenham loop invariant over Z, lra/nia) + correspondence (vm_compute) + oracle on the code",
         ref="§C19"),
+    "C15": dict(
+        text="PARTIAL. model/Sender.v = printcore's stop-and-wait sender x Marlin-style firmware x FIFO channels; runs = all "
+             "interleavings of print thread, firmware and read thread, with an arbitrary good/corrupted flag on every transmission. "
+             "Proved: C15_safety (accepted log always a contiguous in-order duplicate-free slice of the job's commands, a prefix when the "
+             "reset got through), C15_numbering (line numbers = commands sent, stored lines and good frames carry (k, command k)), "
+             "C15_resend (a resend request restarts transmission at the requested stored line), C15_complete_clean (clean link, any "
+             "latency: at quiescence the whole job is accepted), C15_xor_detects_single. Completeness under corruption is REFUTED for "
+             "the faithful model: C15_refuted_tail, C15_refuted_m110 = the two recorded findings. Tie: the real printcore streams "
+             "jobs to a fake serial firmware; every observed wire trace must be a run of the model (check_trace in Coq) with the same "
+             "accepted log; frame_bytes == wire bytes; oracle: frames well-formed, job accepted exactly once in order.",
+        note=TB + "Partial: one _sendnext call / one _listen line are atomic steps (races on the unlocked clear/resendfrom not "
+                  "modelled); pyserial, scheduling and timeouts not modelled; the firmware is the harness's fake (same rules as "
+                  "fw_react); completeness only for a clean link. Known findings (known_findings.json): lost first line when the "
+                  "M110 reset is corrupted on a firmware expecting N1; lost tail after a surplus ok. No axioms.",
+        technique="Rocq proofs (inductive invariants of a transition system, all interleavings and corruption patterns) + trace-acceptance correspondence (vm_compute) against the real threads + oracle",
+        ref="§C15"),
 }
 
 PENDING_REASON = "check not built yet in this session (work in progress; see DESIGN.md §10 for the order)"
